@@ -31,7 +31,11 @@ def gen_expr(r, d=0):
     if k == 4:
         return ('call', r.choice(NAMES[:8]), [E() for _ in range(r.randint(0, 3))])
     if k == 5:
-        return ('mcall', E(), r.choice(NAMES[:8]), [E() for _ in range(r.randint(0, 2))])
+        x = r.random()
+        # receivers whose parentheses are redundant by the operator table: number literals, prefix operators on an atom
+        recv = (('num', r.choice(['12345', '7', '3.5', '0'])) if x < 0.15 else
+                ('un', r.choice(['-', 'not']), gen_expr(r, 9)) if x < 0.35 else E())
+        return ('mcall', recv, r.choice(NAMES[:8]), [E() for _ in range(r.randint(0, 2))])
     if k == 6:
         return ('index', E(), E())
     if k == 7:
@@ -221,7 +225,13 @@ class Decorated(Plain):
             style = r.randrange(3)
             recv = self.operand(t[1]) if t[1][0] in ('name', 'str', 'call', 'list', 'dict', 'kw') else '(' + self.expr(t[1]) + ')'
             if t[1][0] == 'num':
-                recv = '(' + t[1][1] + ')'
+                recv = r.choice(['(' + t[1][1] + ')', t[1][1], t[1][1] + ' '])
+                if not recv.startswith('('):
+                    self.hit('bare-number-receiver')
+            if t[1][0] == 'un' and t[1][2][0] in ('name', 'num', 'kw', 'str') and r.random() < 0.6:
+                # `-r.f(a)` / `not r | f(a)`: prefix operators bind tighter than the call suffixes
+                self.hit('bare-prefix-receiver')
+                recv = t[1][1] + (' ' if t[1][1] == 'not' else r.choice(['', ' '])) + t[1][2][1]
             if style == 0:
                 self.hit('call-style-fn')
                 return f'{t[2]}({self.args([t[1]] + t[3])})'
